@@ -103,12 +103,4 @@ def check(tier):
 
 
 def replay(path):
-    case = json.load(open(path))["case"]
-    data = bytes.fromhex(case["bytes"]["hex"])
-    out = e1.Out()
-    term = e1.Term(_Cfg(), ("replay",), data)
-    print(term.src)
-    oracles.c19_total(term, out)
-    for sig, lst in out.viol.items():
-        print(sig, lst[0][2])
-    return 1 if out.viol else 0
+    return e1.replay_terminal(PROP, path, [oracles.c19_total])
